@@ -70,9 +70,11 @@ class Tracer:
         from ZODB.utils import u64
         R = self.roles
         if c.get('new') and kind == 'acquired' and role == R.get('adapter'):
-            c['new_idx'] = self.nnew
+            inst = c.get('new_inst')
+            self.ids[id(inst)] = self.nnew
+            self.keep.append(inst)
+            self.emit('new', 'inst=%d' % self.nnew)
             self.nnew += 1
-            self.emit('new', 'inst=%d' % c['new_idx'])
             c['new'] = False
             return
         p = c.get('poll')
@@ -219,10 +221,19 @@ def installed(tr):
             return o_new(self)
         c = tr.c(t)
         c['new'] = True
-        inst = o_new(self)
-        tr.ids[id(inst)] = c.pop('new_idx')
-        tr.keep.append(inst)
-        return inst
+        try:
+            return o_new(self)
+        finally:
+            c['new'] = False
+            c['new_inst'] = None
+
+    o_init = I.__init__
+
+    def inst_init(self, base):
+        t = tname()
+        if t is not None:
+            tr.c(t)['new_inst'] = self
+        return o_init(self, base)
 
     def _invalidate_finish(self, tid, oids, committing_instance):
         t = tname()
@@ -256,12 +267,14 @@ def installed(tr):
     A.new_instance, A._invalidate_finish, I._invalidate, K.open, K.close = \
         new_instance, _invalidate_finish, _invalidate, open, close
     I.tpc_begin = tpc_begin
+    I.__init__ = inst_init
     try:
         yield
     finally:
         A.new_instance, A._invalidate_finish, I._invalidate, K.open, K.close = \
             o_new, o_invfin, o_inv, o_open, o_close
         I.tpc_begin = o_begin
+        I.__init__ = o_init
 
 
 def check_line(op, exp, got):
